@@ -447,6 +447,11 @@ def check_walk(repo: Repo, res: Result, it: M.Interp, internal: set[str]) -> "bo
             return None
         lineage = [ci.name, *reversed(M.dotted_ancestors(ci.name))]
         excl = {n: f"EXCL({n!r})" for n in lineage}
+        inexact = sorted(a_ for a_ in atoms_of(k) if (a_.startswith(("EXCL(", "∃EXCL", "EXCL[")) and a_ not in {f"EXCL({n!r})" for n in itc.CONCRETE_NAMES}) or M._SYM.search(a_))
+        if inexact:
+            # a pattern test on a name the run could not compute, a fact about a generic element: the names were not all followed
+            res.observe(f"C10.R4 ancestor walk: the retention of the import of `{ci.name}` mentions names the unrolling could not compute ({', '.join(inexact[:4])}) - no verdict from the unrolling")
+            return None
         others = sorted(atoms_of(k) - set(excl.values()))
         if len(others) > 12:
             return None
@@ -872,13 +877,16 @@ def check_sink(repo: Repo, res: Result, it: M.Interp, s: M.Sink, walk_ok: "bool 
             res.undecide("C10.R4", part_key(repo, p) + " [include mode only]", f"cannot establish that `{show(gate)}` implies that externals are included", p.where())
         # excluded externals disappear together with their imports: a name derived from an import reaches the module list only
         # when the patterns spare it (the importee: itself and its ancestors; an ancestor: itself, unless it is a scanned module)
-        concl = conj([f_not(EX), f_not(EXA)]) if p.what == "self" else disj([f_not(atom(f"EXCL[anc:{E}]")), atom(f"INSCAN[anc:{E}]")])
+        # (stated relative to the import list handed to the graph: the names come from a retained import, or the patterns spare
+        # them - which names the import filter applies the patterns to is the business of the unrolled obligations)
+        spared = conj([f_not(EX), f_not(EXA)]) if p.what == "self" else disj([f_not(atom(f"EXCL[anc:{E}]")), atom(f"INSCAN[anc:{E}]")])
+        concl = disj([k_imp_r, spared])
         st, w = tri(it, conj([gate, f_not(FLAG), f_not(INT)]), concl)  # (names below the internal prefix: R3)
         key_x = part_key(repo, p) + " [excluded externals are not appended]"
         if st == "ok":
-            res.add("C10.R4", key_x, True, f"{what} of an import become(s) a module only when no external exclusion pattern matches it (the importee: nor one of its ancestors)", p.where(), kind="dominance")
+            res.add("C10.R4", key_x, True, f"{what} of an import become(s) a module only when the import is among those handed to the graph or no external exclusion pattern matches the name (the importee: nor one of its ancestors)", p.where(), kind="dominance")
         elif st == "violated":
-            res.add("C10.R4", key_x, False, f"`{norm(p.node, 70)}` adds {what} of an import as module(s) under `{show(gate)}`, which holds although an external exclusion pattern matches {'the importee or one of its ancestors' if p.what == 'self' else 'that ancestor'} (witness: {fmt_env(w)}): the import is dropped but the excluded external stays in the architecture as a module (the names are derived from imports that were not filtered, and the module-list filter only looks at the name itself)", p.where(), kind="dominance")
+            res.add("C10.R4", key_x, False, f"`{norm(p.node, 70)}` adds {what} of an import as module(s) under `{show(gate)}`, which holds for an import that is not handed to the graph because an external exclusion pattern matches {'the importee or one of its ancestors' if p.what == 'self' else 'that ancestor'} (witness: {fmt_env(w)}): the import is dropped but the excluded external stays in the architecture as a module (the names are derived from imports that were not filtered, and the module-list filter only looks at the name itself)", p.where(), kind="dominance")
         else:
             res.observe(f"C10.R4 {key_x}: not decided (`{show(gate)}` -> `{show(concl)}` hinges on facts the model does not know)")
     for whatk, label in (("self", "importee"), ("parents", "ancestors")):
